@@ -8,6 +8,20 @@ CHECKS = {
    text="TLC enumerates every admissible (factory kind, dimension, index), checks idempotence/orthogonality/completeness/Pos+Neg=I on exact 0/1 matrices, and every generated call is replayed on the real factory and compared entrywise; the space is finite and enumerated completely.",
    note="Trusts: TLC, module Exact (basis checked by TLC to be the Gell-Mann basis), the 20-line component<->matrix formula in harness/exact.h. PosProjector/NegProjector(d,d) not covered (property silent)."),
 }
+CHECKS.update({
+ "C01": dict(cat="model_checking", sec="5/C01", tech="TLA+ SUAlgebra linear actions with exact Q(zeta8) matrices; TLC checks the laws; every exported call replayed on the real kernels",
+   text="TLC checks on exact matrices that the specification's basis is the generalised Gell-Mann basis, that matrix<->coordinates is a bijection, Real+Imag=id, transpose=conjugate, equality=coordinatewise; every generated call (all basis slots and dense integer patterns, all ordered pairs for binary calls, d=2..6) is replayed on GetGSLMatrix / matrix constructor / list round trip / + - * / += -= *= /= == Transpose Real Imag and compared with the exact matrix and bit-exactly with the componentwise definition, including 2^+-300 scalings.",
+   note="Trusts TLC, harness/exact.h (independent component<->matrix formula). Linearity beyond the enumerated inputs is evidenced by the patterns, not proved."),
+ "C02": dict(cat="model_checking", sec="5/C02", tech="TLA+ SUAlgebra icom/acom/trace; TLC enumerates all ordered generator pairs exactly; full output vectors replayed on the generated kernels",
+   text="For every dimension TLC enumerates all (d^2+NPat)^2 ordered operand pairs, computes i[A,B], {A,B}, Tr(AB) exactly, checks antisymmetry, zero identity component, symmetry, additivity and Tr(A i[A,B])=0, and the real kernels are compared two-sided on the full result vector, which pins every coefficient of every generated file.",
+   note="Rounding bound 512 eps |A|_1 |B|_1; exhaustive over generator pairs, patterns sample bilinearity."),
+ "C03": dict(cat="model_checking", sec="5/C03", tech="TLA+ SUAlgebra evolve action on the pi/4 phase lattice; TLC checks group law / isometry; exported cases replayed on Evolve, assigned Evolve and PrepareEvolve+Evolve(buffer)",
+   text="TLC computes exp(iHt) A exp(-iHt) exactly for integer diagonal H (zero, distinct, degenerate spectra) and t=k*pi/4 (k in -3..8, 1001, -4003), checks t=0 identity, t1 then t2 = t1+t2, inverse, trace and scalar-product preservation, and all three implementation forms are compared with the exact result for every basis element.",
+   note="Off-lattice phases are not decided (only libm differs); quick tier samples d=5,6 with fewer spectra."),
+ "C06": dict(cat="model_checking", sec="5/C06", tech="TLA+ SUAlgebra rotate/mixing/tob1/tob0 actions over Q(zeta8); TLC checks unitarity, inverse, isometry; exported cases replayed on all 35 rotation kernels and every matrix entry point",
+   text="TLC computes R^dagger A R exactly for every plane (i,j), every (theta,delta) residue pair on the pi/4 lattice and every basis element, the mixing matrix as the documented ordered product, U^dagger A U and U A U^dagger; it checks unitarity, sparse=dense, inverse by negated angle, B0 o B1 = id, trace and scalar products; the real Rotate, GetTransformationMatrix, RotateToB1/B0, Rotate(U), UTransform(U), UDaggerTransform(U) are compared entrywise.",
+   note="Off-lattice angles not decided; quick tier samples d=5,6 rotations 1 in 8."),
+})
 NA = {}
 def main():
     checks = []
